@@ -9,6 +9,7 @@ Driver ops of C14.
                                        (`processConn` for the one-connection modes shared / simple)
       req = <header block hex>/<env 1|0|n>/<method hex>/<msg type>/<seqid>/<args>/<outcome>
       args = ok<k> | req | bad<k>        outcome = s:<hex> | d:<field> | a:<type> | o
+      optionally /<output condition> (see parseOut)
       (protocol and mode — shared / simple = one connection, sep / http = one transport pair per
       request, conc = concurrent — do not enter the model's answer; the mode only selects how
       much of the per-request result the harness can observe)
@@ -21,10 +22,10 @@ open FV FV.Proc
 namespace Proc
 
 /-- The process map of the harness's hand-written service:
-`string ping(1: required string s) throws (1: Err e)`, `void nop()`, `oneway void fire(1: required string s)`. -/
+`string ping(1: required string s) throws (1: Err e)`, `void nop()`, `binary blob()`, `oneway void fire(1: required string s)`. -/
 def stdProcMap : ProcMap :=
-  ProcMap.add (ProcMap.add (ProcMap.add [] "ping".toUTF8.toList ⟨false, [1]⟩) "nop".toUTF8.toList ⟨false, []⟩)
-    "fire".toUTF8.toList ⟨true, []⟩
+  ProcMap.add (ProcMap.add (ProcMap.add (ProcMap.add [] "ping".toUTF8.toList ⟨false, [1]⟩) "nop".toUTF8.toList ⟨false, []⟩)
+    "blob".toUTF8.toList ⟨false, []⟩) "fire".toUTF8.toList ⟨true, []⟩
 
 def parseArgs (s : String) : Option Args :=
   if s.startsWith "ok" then some ⟨true, true⟩
@@ -40,9 +41,26 @@ def parseOutcome (s : String) : Option HOutcome :=
   | ["o"] => some .other
   | _ => none
 
-def parseReq (s : String) : Option (Request × HOutcome) :=
-  match s.splitOn "/" with
-  | [hb, env, m, mt, sq, a, o] => do
+/-- 8th field of a request token: how its output protocol behaves.
+`L<limit>:<fit 1|0>` bounded buffer (the limit is for the harness; `fit` = the REPLY / unknown-method
+message fits), `W<k>` the k-th Write fails, `FL` the Flush fails; absent or `-` = healthy. -/
+def parseOut (s : String) : Option OutCond :=
+  if s == "-" then some .healthy
+  else if s.startsWith "W" || s == "FL" then some .fails
+  else if s.startsWith "L" then
+    match s.splitOn ":" with
+    | [_, "1"] => some .healthy
+    | [_, "0"] => some .tooSmall
+    | _ => none
+  else none
+
+def parseReq (s : String) : Option (Request × HOutcome) := do
+  let (fields, out) ← match s.splitOn "/" with
+    | [hb, env, m, mt, sq, a, o] => some ([hb, env, m, mt, sq, a, o], OutCond.healthy)
+    | [hb, env, m, mt, sq, a, o, oc] => (parseOut oc).map fun c => ([hb, env, m, mt, sq, a, o], c)
+    | _ => none
+  match fields with
+  | [hb, env, m, mt, sq, a, o] =>
     let hb ← unhex hb
     let m ← unhex m
     let mt ← mt.toNat?
@@ -53,7 +71,7 @@ def parseReq (s : String) : Option (Request × HOutcome) :=
       | .ok (h, _) => .ok h
       | .err e => .err e
       | .panic p => .panic p
-    pure (⟨hdr, env == "1", m, mt, sq, a⟩, o)
+    pure (⟨hdr, env == "1", m, mt, sq, a, out⟩, o)
   | _ => none
 
 def showPayload : PayloadTag → String
